@@ -16,3 +16,4 @@ func vhPrint(re *RuntimeEnvironment, p *Process, label string)              {}
 func vhTcBegin(env *GlobalEnvironment)                                      {}
 func vhTcStep(env *GlobalEnvironment)                                       {}
 func vhTcEnd(env *GlobalEnvironment)                                        {}
+func vhTcDone(env *GlobalEnvironment)                                       {}
